@@ -170,3 +170,20 @@ def go_bytes(bs):
 
 def hexs(bs):
     return bytes(bs).hex()
+
+
+def guarded_main(pid, main):
+    """run a check's main(); an engine limitation or internal error must never look like a verdict: it is reported as
+    INCONCLUSIVE (exit 0, evidence written) instead of a crash"""
+    try:
+        main()
+    except SystemExit:
+        raise
+    except BaseException as ex:
+        import traceback
+        tb = traceback.format_exc()
+        sys.stderr.write(tb)
+        ck = Check(pid)
+        ck.record('check_aborted', 'inconclusive', 'the check could not be completed: %s: %s' % (type(ex).__name__, str(ex)[:300]))
+        ck.extra['aborted'] = tb[-1500:]
+        ck.finish()
